@@ -10,7 +10,7 @@ from mc.spaces import split_list
 
 ID = "C08"
 MANIFEST = {"engine": "E1"}
-LABS = ("bin", "neg", "cancel", "generic", "binint")
+LABS = ("bin", "neg", "cancel", "generic", "binint", "tiny")
 
 
 def prepare(tier, seed):
@@ -41,6 +41,9 @@ def units(tier, seed):
     out += [{"stage": "dag", "p": W, "codes": c} for c in split_list(_g.wide_sparse_codes("dag"), 8)]
     out += [{"stage": "pdag", "p": W, "codes": c} for c in split_list(_g.wide_sparse_codes("pdag"), 16)]
     out.append({"stage": "dag", "p": W, "codes": [G.encode(W, ch, [0] * W) for ch in _g.wide_targeted()]})
+    # 70-node graphs with edges on node indices >= 64
+    out.append({"stage": "dag", "p": _g.BIG_P, "codes": _g.big_codes("dag")})
+    out.append({"stage": "pdag", "p": _g.BIG_P, "codes": _g.big_codes("pdag")})
     return out
 
 
@@ -74,13 +77,13 @@ def check_dag_ch(p, ch, lab):
     return fails, len(cls)
 
 
-def check_pdag(p, code):
+def check_pdag(p, code, lab="pdag"):
     ch, und = G.decode(p, code)
     if not G.is_acyclic(p, ch):
         return None
     fails = []
     E = _g.exts(p, ch, und)
-    P = _g.pdag_matrix(p, ch, und)
+    P = _g.pdag_any(p, ch, und, lab)
     r = _g.call(U.pdag_to_cpdag, P.copy())
     if not E:
         if r[0] == "ok":
@@ -153,8 +156,8 @@ def run_unit(unit):
                     acc.fail("dag", {"p": p, "code": code, "lab": lab}, sig, msg)
     else:
         codes = unit["codes"] if "codes" in unit else range(unit["lo"], unit["hi"])
-        for code in codes:
-            res = check_pdag(p, code)
+        for code, lab in ((c, l) for c in codes for l in (("pdag",) + (_g.WPDAG_LABS if p <= 4 and G.nedges(p, c) >= 1 else ()))):
+            res = check_pdag(p, code, lab)
             if res is None:
                 continue
             fails, nE = res
@@ -167,7 +170,7 @@ def run_unit(unit):
                 acc.nontrivial += 1
             acc.outcome(["ext", nE])
             for sig, msg in fails:
-                acc.fail("pdag", {"p": p, "code": code}, sig, msg)
+                acc.fail("pdag", {"p": p, "code": code, "lab": lab}, sig, msg)
     return acc.out()
 
 
@@ -177,16 +180,16 @@ def replay(kind, case):
     if kind == "dag":
         res = check_dag(case["p"], case["code"], case["lab"])
     else:
-        res = check_pdag(case["p"], case["code"])
+        res = check_pdag(case["p"], case["code"], case.get("lab", "pdag"))
     return res[0] if res else []
 
 
 def describe(tier, seed):
     return {
         "technique": "exhaustive small-scope enumeration on the real code vs union graph of the brute-force equivalence class",
-        "rule": "dag_to_cpdag on every labelled DAG p<=4 under 5 weight labelings and +-1 sign assignments (+ wide 10-node graphs with <=2 edges and targeted colliders, + 5-node DAGs with <=5 edges quick; all p=5, 6-node "
+        "rule": "dag_to_cpdag on every labelled DAG p<=4 under 6 weight labelings (incl. weights down to 3e-310) and +-1 sign assignments (+ 7 graphs on 70 nodes with edges on node indices >= 64, + wide 10-node graphs with <=2 edges and targeted colliders, + 5-node DAGs with <=5 edges quick; all p=5, 6-node "
                 "DAGs <=5 edges and chain/collider-chain DAGs to p=12 thorough) compared entry-wise with the union graph of the "
-                "brute-force class; pdag_to_cpdag on every PDAG with acyclic directed part (p<=4 + sparse p=5 + every 8th code of the complete 5-node space quick; p=5 + sparse p=6 "
+                "brute-force class; pdag_to_cpdag on every PDAG with acyclic directed part (0/1, and for p<=4 as float weight matrices under 3 weightings, as documented: entries != 0; p<=4 + sparse p=5 + every 8th code of the complete 5-node space quick; p=5 + sparse p=6 "
                 "thorough) incl. the ValueError when no extension exists; non-trivial: class size > 1 / >= 2 edges",
         "exhaustive": True,
         "bounds": {"p_exhaustive": 5 if tier == "thorough" else 4},
